@@ -37,6 +37,13 @@ def oracle_single(ca, probes_all):
         return f"raised {type(e).__name__}: {e}"
     return None
 
+def judge(a, b):
+    c = VC.case_of(a, b)
+    if isinstance(c.ca, Exception) or isinstance(c.cb, Exception): return None
+    bounds = I.mentioned_bounds(c.ca, c.ga) + I.mentioned_bounds(c.cb, c.gb)
+    probes = I.critical_probes(bounds)
+    return (None if any(v.is_local() for v in bounds) else oracle_pair(c, probes)) or oracle_single(c.ca, probes)
+
 def run(tier):
     R = common.Run("C12", tier)
     ok, log = common.build_driver()
@@ -69,7 +76,8 @@ def run(tier):
         if m != exp:
             R.disagree("allows_all/allows_any", dict(a=c.a, b=c.b), m, exp)
     M.close()
-    return R.finish(VC.TRUSTED, VC.ASSUME, RULE, "make -C coq Properties/C12.vo && coqc Properties/C12.v (Print Assumptions)")
+    return R.finish(VC.TRUSTED, VC.ASSUME, RULE, "make -C coq Properties/C12.vo && coqc Properties/C12.v (Print Assumptions)",
+                    search=VC.make_search(judge, VC.fresh_pairs(3000 if tier == "quick" else 30000)))
 
 def replay(rep):
     c = VC.Case(); case = rep["case"]
